@@ -255,20 +255,41 @@ def _fan_lean(name, comment, stmts):
     return ['-- ' + comment, 'def %s : List FanStmt := [%s]' % (name, ', '.join(one(s) for s in stmts))]
 
 
-def _fan_block(out, prefix, what, stmts, itertext, varname):
-    """a block `pre*; for <varname> in <itertext>: body; post*` -> <prefix>_pre, <prefix>_body, <prefix>_post"""
+def _fan_resolve(e, stmts):
+    """the expression with single-assignment local names of the preceding statements substituted (a refactor that
+    names a sub-expression does not change what is iterated over)"""
+    env = {}
+    for st in stmts:
+        if isinstance(st, ast.Assign) and len(st.targets) == 1 and isinstance(st.targets[0], ast.Name):
+            nm = st.targets[0].id
+            env[nm] = None if nm in env else st.value
+    class Sub(ast.NodeTransformer):
+        def visit_Name(self, n):
+            v = env.get(n.id)
+            return self.visit(v) if v is not None else n
+    import copy
+    return ast.unparse(Sub().visit(copy.deepcopy(e)))
+
+
+def _fan_block(out, prefix, what, stmts, itertext, varname, context=()):
+    """a block `pre*; for <var> in <itertext>: body; post*` -> <prefix>_pre, <prefix>_body, <prefix>_post
+    (the loop variable may have any name; `varname` is only what it is called in the comments)"""
     loops = [i for i, st in enumerate(stmts) if isinstance(st, ast.For)]
     if len(loops) != 1:
         raise Untranslatable('%s: exactly one top-level for loop expected, found %d' % (what, len(loops)))
     loop = stmts[loops[0]]
-    if ast.unparse(loop.iter) != itertext or not isinstance(loop.target, ast.Name) or loop.target.id != varname:
+    it = _fan_resolve(loop.iter, list(context) + list(stmts[:loops[0]]))
+    if it != itertext or not isinstance(loop.target, ast.Name):
         raise Untranslatable('%s: loop is not `for %s in %s`: for %s in %s' % (
             what, varname, itertext, ast.unparse(loop.target), ast.unparse(loop.iter)))
+    var = loop.target.id
     if loop.orelse:
         raise Untranslatable('%s: for ... else' % what)
-    out.extend(_fan_lean(prefix + '_pre', '%s: statements before the loop' % what, _fan_flatten(stmts[:loops[0]], None)))
+    pre = [st for st in stmts[:loops[0]]
+           if not (isinstance(st, ast.Assign) and len(st.targets) == 1 and isinstance(st.targets[0], ast.Name))]
+    out.extend(_fan_lean(prefix + '_pre', '%s: statements before the loop' % what, _fan_flatten(pre, None)))
     out.extend(_fan_lean(prefix + '_body', '%s:%d  for %s in %s' % (what, loop.lineno, varname, itertext),
-                         _fan_flatten(loop.body, varname)))
+                         _fan_flatten(loop.body, var)))
     out.extend(_fan_lean(prefix + '_post', '%s: statements after the loop' % what, _fan_flatten(stmts[loops[0] + 1:], None)))
 
 
@@ -291,7 +312,7 @@ def _fanout_tables(ltree, dtree):
         removes[0].lineno, ast.unparse(removes[0])))
     out.append('def clearLog_removedIdx : Int := (0 : Int)')
     _fan_block(out, 'clearLog', 'SupervisorNamespaceRPCInterface.clearLog', f.body[loops[0]:],
-               'self.supervisord.options.logger.handlers', 'handler')
+               'self.supervisord.options.logger.handlers', 'handler', context=[st for st in pre if st not in lf])
     # ---- ServerOptions.reopenlogs (SIGUSR2, the activity log) -----------------------------------------
     otree = rd('supervisor/options.py')
     f = find_func(otree, 'ServerOptions.reopenlogs')
